@@ -244,3 +244,32 @@ def finish(rep, t0, seed=0):
     print(f'[{rep.pid}] tier={rep.tier} obligations={total} holding={good} known-findings={len(seen)} '
           f'violations={len(viol)} wall={ev["wall_s"]}s')
     return 1 if viol else 0
+
+
+def conditional_compilation(rep):
+    """Coverage of the analysis: the checks see the crate as it is built with its default features in the dev profile.  Code under any other
+    `#[cfg(..)]` / `cfg!(..)` / `#[cfg_attr(..)]` (another profile, feature, target) is a second program the analysis has not looked at - it
+    is reported as undecided, never silently trusted.  `#[cfg(test)]` items are not part of the library."""
+    import re, glob
+    hits = []
+    for path in sorted(glob.glob(os.path.join(SRC, '**', '*.rs'), recursive=True)):
+        text = open(path, encoding='utf-8', errors='replace').read()
+        # drop line comments and string literals (doc examples live in comments)
+        code = re.sub(r'//[^\n]*', '', text)
+        code = re.sub(r'"(?:\\.|[^"\\])*"', '""', code)
+        for m in re.finditer(r'#!?\[\s*cfg(_attr)?\s*\(([^\]]*)\]|\bcfg!\s*\(([^)]*)\)', code):
+            body = (m.group(2) or m.group(3) or '').replace(' ', '')
+            if m.group(1) is None and m.group(3) is None and body.rstrip(')') == 'test':
+                continue
+            if m.group(3) is not None and body == 'test':
+                continue
+            if m.group(1) is not None and re.match(r'^[^,]*,doc\b', body):
+                continue        # documentation-only attribute
+            line = code[:m.start()].count('\n') + 1
+            hits.append((os.path.relpath(path, REPO), line, m.group(0)[:60]))
+    for f, line, what in hits:
+        rep.bad('coverage.conditional-compilation', f'cfg:{f}:{what.replace(" ", "")}', f'{f}:{line}',
+                f'`{what}`: code that is compiled only under another configuration (profile, feature, target) is not covered by the analysed build; the property is not established '
+                f'for that variant of the library', undecided=True)
+    if not hits:
+        rep.ok('coverage.conditional-compilation', 'no-cfg', '', 'no #[cfg(..)] / cfg!(..) other than cfg(test) in the library source: the analysed build is the only variant')
